@@ -224,6 +224,9 @@ def recognised(data):
     return bool(re.match(rb"^>[^ ]", data) or re.match(rb"^@[^ ].*\n[^ ]+\n\+", data))
 
 
+NOCHECK_NAME = re.compile(r"^(zstnocheck|zstframes|xznocheck|xzcheck_none|xznone)")        # container variants written without a checksum
+
+
 class Base:
     def __init__(self, ctx, tmp, name, codec, fmt, data, blob=None, ids=None, m1=None, big=None, cuts=None, noflip=False):
         self.name, self.codec, self.fmt, self.data = name, codec, fmt, data
@@ -270,6 +273,11 @@ def expectation(base, case):
         # a damaged container which still holds the complete text (flipped bit in a header field, in padding): reporting the damage (Go's gzip
         # verifies the header CRC, Python's does not) and delivering everything are both right
         return ("ok-or-fatal", base.ids)
+    if case["flip"] >= 0 and case["cut"] < 0 and NOCHECK_NAME.match(base.name or ""):
+        # one flipped bit in a container which carries NO checksum, still accepted by the reference decoder: the damage is
+        # undetectable in principle, and decoders legitimately differ on such frames (the zstd tool and klauspost/compress give texts
+        # of different lengths for the same damaged frame): the property demands nothing
+        return None
     if len(dec) == len(base.data):
         # a valid container of ANOTHER text of the same length: a flipped bit in data no checksum covers (zstd frame without checksum, xz
         # block without check): nobody can tell, the records have the same names and lengths, the property demands nothing
